@@ -43,6 +43,11 @@ def gen(rng, tier):
         # avoid pushing epsilon moves so that every closure is finite (exact references on both sides)
         p['delta'] = [t for t in p['delta'] if not (t[1] == p['eps'] and t[4] != p['eps'])]
         ps.append(p)
+    for _ in range(20 if quick else 300):
+        p = G.random_pda(rng, rng.randint(1, 3), rng.choice(['a', 'ab']), 'xy', rng.choice(['_', 'ε']), ntrans=rng.randint(1, 4), kinds=['push', 'pop'])
+        p['delta'] = [t for t in p['delta'] if not (t[1] == p['eps'] and t[4] != p['eps'])]
+        p['F'] = rng.choice([[], list(p['Q']), p['Q'][:1]])
+        ps.append(p)
     rep = [G.replace_pda(rng) for _ in range(12 if quick else 150)]
     cases = [{'P': p, 'n': 3, 'cfg': len(p['Sigma']) <= 2 and i % 3 == 0, 'deep': False} for i, p in enumerate(rep)]
     cases += [{'P': G.loop_exit_pda(rng), 'n': 4, 'cfg': True, 'deep': False} for _ in range(3 if quick else 30)]
@@ -101,6 +106,11 @@ def observe(c):
             run('cfg', PA.pda_to_cfg)
         else:
             out['cfg'] = None
+        # the non-default mode accepts_on_empty_stack=True: only the argument snapshot is judged here
+        if len(c['P']['Q']) <= 3 and len(c['P']['delta']) <= 5:
+            before = conv.pda_case(P)
+            r = safe(lambda: PA.pda_to_cfg(P, True), timeout=20)
+            out['cfg_es_unchanged'] = conv.pda_case(P) == before
     finally:
         PA.fresh_state, PA.fresh_symbol = fs, fsym
     out['fresh_calls'] = calls
@@ -163,6 +173,8 @@ def encode(c, o):
     extra = []
     if o.get('cfg') and o['cfg'].get('words') is not None and all(ch in p['Sigma'] for w in o['cfg']['words'] for ch in w):
         extra.append('judge_cfg_words_of_pda %s %d (Some %s)' % (lit, c['n'], L.lst(L.nats(f(ch) for ch in w) for w in o['cfg']['words'])))
+    if o.get('cfg_es_unchanged') is False:
+        extra.append('41')
     return 'worst_code [%s]' % '; '.join([main] + fresh + extra)
 
 
